@@ -294,10 +294,17 @@ class TemporalDictionaryEnsemble(BaseClassifier):
         return self
 
     def predict(self, X):
-        rng = check_random_state(self.random_state)
+        # ties are broken per instance: a fresh generator for every row, so that
+        # the label of an instance does not depend on its position in X
         return np.array(
             [
-                self.classes_[int(rng.choice(np.flatnonzero(prob == prob.max())))]
+                self.classes_[
+                    int(
+                        check_random_state(self.random_state).choice(
+                            np.flatnonzero(prob == prob.max())
+                        )
+                    )
+                ]
                 for prob in self.predict_proba(X)
             ]
         )
